@@ -249,6 +249,18 @@ v('C11 C12', 'silent', 'filters.py', '(1 - alpha) * first[LLA_COLS] + alpha * se
 v('C04', 'fire', 'error_model.py', 'Phi = 0.5 * (Fi[1:] + Fi[:-1]) * dt.reshape(-1, 1, 1)', 'Phi = (Fi[1:] + Fi[:-1]) * dt.reshape(-1, 1, 1)', 'propagation: average without the 1/2')
 v('C04', 'fire', 'error_model.py', 'accel_error = util.mv_prod(Fia, accel_error)', 'accel_error = util.mv_prod(Fig, accel_error)', 'propagation: accelerometer error through the gyro coupling')
 v('C04', 'fire', 'error_model.py', 'x[i + 1] = Phi[i].dot(x[i]) + delta_sensor[i] * dt[i]', 'x[i + 1] = Phi[i].dot(x[i]) + delta_sensor[i]', 'propagation: sensor term not multiplied by the step')
+E_ = 'error_model.py'
+v('C04', 'fire', E_, 'for i in range(n_samples - 1):', 'for i in range(n_samples - 2):', 'survey: last interval never propagated')
+v('C04', 'fire', E_, 'n_samples = Fi.shape[0]', 'n_samples = Fi.shape[1]', 'survey: row count taken from the state axis')
+v('C04', 'silent', E_, 'for i in range(n_samples - 1):', 'for i in range(len(dt)):')
+v('C04', 'silent', E_, 'for i in range(n_samples - 1):', 'for i in range(len(Phi)):')
+v('C04', 'silent', E_, 'n_samples = Fi.shape[0]', 'n_samples = len(trajectory)')
+v('C04', 'fire', E_, 'pva_error = pd.Series(data=np.zeros(9), index=TRAJECTORY_ERROR_COLS)', 'pva_error = pd.Series(data=np.ones(9), index=TRAJECTORY_ERROR_COLS)', 'survey: default initial error')
+v('C04', 'silent', E_, 'pva_error = pd.Series(data=np.zeros(9), index=TRAJECTORY_ERROR_COLS)', 'pva_error = pd.Series(0.0, index=TRAJECTORY_ERROR_COLS)')
+v('C04', 'fire', E_, 'gyro_error=np.zeros(3)', 'gyro_error=np.ones(3)', 'survey: default sensor error')
+v('C04', 'silent', E_, 'gyro_error=np.zeros(3)', 'gyro_error=(0, 0, 0)')
+v('C05 C17 C19', 'fire', E_, 'single = rph.ndim == 1', 'single = rph.ndim != 1', 'survey: Euler-error matrix of the first state used for a whole table')
+v('C16 C19', 'fire', 'earth.py', 'return result[0] if re.ndim == 0 else result', 'return result[0] if re.ndim != 0 else result', 'survey: rank of the result exchanged between the forms')
 v('C04', 'fire', 'error_model.py', 'x0 = error_model.transform_to_internal(trajectory.iloc[0]) @ pva_error.values', 'x0 = error_model.transform_to_output(trajectory.iloc[0]) @ pva_error.values', 'propagation: initial error mapped with the wrong transform')
 v('C04', 'silent', 'error_model.py', 'Phi = 0.5 * (Fi[1:] + Fi[:-1]) * dt.reshape(-1, 1, 1)', 'Phi = Fi[:-1] * dt.reshape(-1, 1, 1)', 'forward Euler: a different but consistent one-step scheme')
 v('C04', 'silent', 'error_model.py', 'x[i + 1] = Phi[i].dot(x[i]) + delta_sensor[i] * dt[i]', 'x[i + 1] = Phi[i] @ x[i] + dt[i] * delta_sensor[i]', 'spelling')
